@@ -10,6 +10,7 @@ import (
 	"path/filepath"
 	"sort"
 	"strconv"
+	"strings"
 	"sync"
 	"time"
 )
@@ -177,6 +178,12 @@ func (r *Run) Fail(c *Case) {
 		return
 	}
 	r.vioTotal++
+	if f := os.Getenv("VERIF_DUMP_FAILS"); f != "" { // development aid: list failing case hashes
+		if fh, err := os.OpenFile(f, os.O_APPEND|os.O_CREATE|os.O_WRONLY, 0o644); err == nil {
+			fmt.Fprintf(fh, "%s\t%s\t%s\n", h, c.Kind, strings.ReplaceAll(c.Key, "\n", "\\n"))
+			fh.Close()
+		}
+	}
 	if len(r.violations) < 20 {
 		r.violations = append(r.violations, c)
 	}
